@@ -1,7 +1,7 @@
 #!/usr/bin/env python3
 """Run the registered quick check of every seeded change against a patched copy of /repo/src (same effect as
 `git -C /repo apply`, check, `git -C /repo checkout -- .`, without touching /repo) and record which obligations /
-bounded clauses report it. usage: tools/eval_seeded.py [parallelism]   (writes seeded/<id>/meta.json `reported_by`)"""
+bounded clauses report it. usage: tools/eval_seeded.py [parallelism [seeded-id ...]]   (writes seeded/<id>/meta.json `reported_by`)"""
 import glob, json, os, re, shutil, subprocess, sys, tempfile
 from concurrent.futures import ThreadPoolExecutor
 V = os.path.dirname(os.path.dirname(os.path.abspath(__file__)))
@@ -34,6 +34,8 @@ def one(d):
 if __name__ == "__main__":
     par = int(sys.argv[1]) if len(sys.argv) > 1 else 3
     dirs = sorted(glob.glob(V + "/seeded/*/"))
+    if len(sys.argv) > 2:          # optional: only these seeded ids
+        dirs = [d for d in dirs if os.path.basename(d.rstrip("/")) in sys.argv[2:]]
     with ThreadPoolExecutor(par) as ex:
         for sid, rc, rep in ex.map(one, dirs):
             print(sid, "exit", rc, "|", "; ".join(rep[:4])[:300], flush=True)
